@@ -96,8 +96,23 @@ def rule_arm(ctx):
     fn = ctx.program.func(f"{WSP}._sendAutoPing")
     g, mf, res = an.get(fn)
     ping = [(n, c) for n in g.stmt_nodes() for c in node_calls(n) if self_call(c, "sendPing")]
-    ok = len(ping) == 1 and [norm.text(a) for a in ping[0][1].args] == ["self.autoPingPending"]
+    from .common import canon_text, local_canon
+    cn = local_canon(fn)
+    stored = [s_ for s_ in walk_no_defs(fn.node) if isinstance(s_, ast.Assign) and is_self_attr(s_.targets[0], "autoPingPending")]
+    ok = len(ping) == 1 and len(ping[0][1].args) == 1 and len(stored) == 1 and \
+        (norm.text(ping[0][1].args[0]) == "self.autoPingPending" or canon_text(fn, ping[0][1].args[0], cn) == canon_text(fn, stored[0].value, cn)) and \
+        stored[0].lineno <= ping[0][1].lineno
     ctx.ob("_sendAutoPing sends the payload it remembers as pending", ok, "ping payload differs from autoPingPending", fn.loc())
+    # traffic instead of a pong discards the outstanding ping completely: a late pong for it must not match any more
+    cf = ctx.program.func(f"{WSP}._cancelAutoPingTimeoutCall")
+    ctx.analysed(cf)
+    gc_, mfc, resc = an.get(cf)
+    clr = [n for n in gc_.stmt_nodes() if n.kind == "stmt" and isinstance(n.ast, ast.Assign) and is_self_attr(n.ast.targets[0], "autoPingPending")
+           and isinstance(n.ast.value, ast.Constant) and n.ast.value.value is None]
+    ctx.ob("_cancelAutoPingTimeoutCall forgets the outstanding ping payload on every path", len(clr) >= 1 and
+           not gc_.path_exists(gc_.entry, gc_.exit, avoid=lambda x: x in clr, edge_ok=type(gc_)._no_exc(None)),
+           "a path keeps autoPingPending: the late pong of the discarded ping is still accepted and starts a second ping chain whose timeout drops a responsive peer",
+           cf.loc())
     for s in ts:
         # the timeout must only be armed for a ping that was really sent: state must be OPEN at the arm site
         vals = norm.values_allowed(s["facts"], "self.state", set(range(5)))
